@@ -4,7 +4,8 @@ from concurrent.futures import ProcessPoolExecutor
 from vlib import c12_lib as L
 from vlib import c12_dyn as D
 from vlib import c12_bcorr as BC
-from vlib import c12_tpl, configs, coqrun
+from vlib import c12_ext as EX
+from vlib import c12_sites, c12_tpl, configs, coqrun
 from vlib.common import COQ
 from vlib.evm import Chain
 
@@ -18,11 +19,21 @@ META = {
             "callee behaviour. Template observation (O-tie): check_external_call / check_create_operation / _extcodesize_check "
             "and 22 venom call-site shapes are kernel-equal to Coq generators proved to compute the model steps. "
             "Correspondence: generated callers (scalar, tuple, Bytes/String/DynArray/struct return types x mutability x "
-            "kwargs; raw_call shapes; builtins) against hand-assembled scriptable targets on pyrevm under every configuration.",
+            "kwargs; raw_call shapes; builtins) against hand-assembled scriptable targets on pyrevm under every configuration. "
+            "Extension: an EVM fragment with per-account storage and arbitrary callee / constructor behaviours (CALL / DELEGATECALL / "
+            "STATICCALL storage contexts, CREATE / CREATE2 failure results); theorems: raw_call(is_delegate_call) runs the target on the "
+            "caller's storage and commits / rolls back, is_static_call never changes state, max_outsize truncation, revert_on_failure, "
+            "raw_create success / failure; the USE-SITES of both generators (RawCall.build_IR, _create_ir and every create builtin on "
+            "symbolic operands; venom call sites with operand slices) over 184 keyword combinations are kernel-equal to Coq generators "
+            "proved to compute that behaviour; pyrevm correspondence for storage contexts, raw_create, raw_args / revert_on_failure=False "
+            "result shapes and precompile targets. Return types cover every word-sized type (interface, flag, decimal, bytesM, intN) "
+            "top level and nested.",
     "level_note": "Theorems are about the models; the models are tied by template observation (failure-handling steps) and by "
                   "correspondence on enumerated behaviours (structured corruptions of canonical returndata). Imports C05/C06 models "
                   "(owned by other checks). Trusted: Coq kernel, pyrevm, hand-assembled targets, eth_abi for canonical encodings, "
-                  "site/template printer. Not modelled: delegatecall storage context, SELFDESTRUCT callee, precompiles, gas exhaustion.",
+                  "site/template printer / use-site cutter (initcode buffer and length operands of CREATE are abstracted in the syntactic tie "
+                  "and covered by the correspondence only). EVM fragment: a callee's effect is a list of writes to the frame owner's "
+                  "storage (no nested calls / reentrancy, no balances, no gas). Not modelled: SELFDESTRUCT callee, gas exhaustion.",
     "technique": "Coq proof over protocol model + differential correspondence against a scriptable callee",
 }
 
@@ -30,6 +41,10 @@ COQ_FILES = ["C12/ExtCall.v", "C12/ExtCallProofs.v", "C12/PropsExtCall.v", "C12/
              "C12/ExtCallDyn.v", "C12/ExtCallDynProofs.v", "C12/PropsExtCallDyn.v",
              "C12/Builtins.v", "C12/BuiltinsProofs.v", "C12/PropsBuiltins.v"]
 TIE_FILES = ["C12/GenCall.v", "C12/TieCall.v", "C12/PropsCallTpl.v"]
+# extension (session 3): EVM fragment with storage contexts; use-sites of the call / create templates in both generators
+EXT_STATIC = ["C12/EvmFrag.v", "C12/EvmFragProofs.v", "C12/PropsEvmFrag.v"]
+EXT_TIE = ["C12/GenSites.v", "C12/TieSites.v", "C12/PropsSites.v"]
+EXT_DEPS = ["C12/ExtCall.v", "C12/Builtins.v", "C12/CallTpl.v"]
 MAX_REPORTS = 3
 
 
@@ -86,6 +101,68 @@ def py_expected(fn, beh):
         if not ok:
             return ("revert", b"")
     return ("ok", ws)
+
+
+def ext_build(ctx):
+    """extension part 1: regenerate GenSites.v from the real generators, build the EVM-fragment theorems and the use-site tie.
+    -> pending violation (kind, name, detail) or None"""
+    pend = None
+    files = list(EXT_STATIC)
+    try:
+        text, n = c12_sites.observe()
+        (COQ / "C12" / "GenSites.v").write_text(text)
+        files = EXT_STATIC[:2] + EXT_TIE[:1] + EXT_STATIC[2:] + EXT_TIE[1:]
+        ctx.extra["usesite_templates"] = n
+    except Exception as e:   # a builtin no longer accepts symbolic operands / a probe no longer compiles / site not exportable
+        pend = ("translator-rejected", f"use-site export failed: {type(e).__name__}: {e}", {"error": str(e)[:1500]})
+    b = ctx.coq_build_cached(files, deps=EXT_DEPS)
+    if not b["ok"] and pend is None:
+        pend = ("theorem-broken", f"{b.get('failed_lemma')} in {b['file']} (use-site tie / EVM-fragment theorems)",
+                {"theorem": b.get("failed_lemma"), "file": b["file"], "coq_output": b["out"][-1500:]})
+    elif b["ok"] and pend is None:
+        ctx.extra["usesite_syntactic_matches"] = ctx.extra.get("usesite_templates")
+    return pend
+
+
+def prebuild(ctx):
+    ext_build(ctx)
+
+
+def ext_corr(ctx, cfgs, rnd):
+    """extension part 2: storage contexts / raw_create / create_* result shapes / precompiles on pyrevm vs EvmFrag.v.
+    -> (evaluations, reports)"""
+    with ProcessPoolExecutor(max_workers=3) as ex:
+        builds = list(ex.map(EX.compile_ext, cfgs, chunksize=1))
+    import random
+    n, reports, cache = 0, [], {}
+    seed = rnd.randrange(2**64)     # the same scenario data under every configuration: model expressions are shared
+    for cfg, bd in zip(cfgs, builds):
+        if not bd["ok"]:
+            reports.append(("correspondence-broken", f"extension caller does not compile under {cfg.name}: {bd['error']}",
+                            {"config": cfg.name, "error": bd["error"], "source": EX.SRC}))
+            continue
+        res = EX.run_config(cfg, bd, random.Random(seed))
+        if res is None:
+            reports.append(("correspondence-broken", f"extension caller cannot be deployed under {cfg.name}", {"config": cfg.name}))
+            continue
+        results, _caller = res
+        new = [e for e in dict.fromkeys(r[3] for r in results) if e not in cache]
+        if new:
+            for e, v in zip(new, EX.eval_models(new, "c12x")):
+                cache[e] = v
+        for cname, fn, det, expr, obs, bad in results:
+            n += 1
+            pred = cache[expr]
+            detail = dict(det, config=cfg.name, case=cname, function=fn, model_expr=expr[:600], **{"expected(model)": pred, "observed": obs},
+                          oracle_failures=bad, caller_source=EX.SRC,
+                          how="targets: vlib.c12_ext.writer_runtime() / vlib.c12_builtins (ERC5202+blueprint_initcode, echo_runtime); "
+                              "set_t(target); call function(args)")
+            if bad:
+                reports.append(("failing-input", f"{cname}: {bad[0]}", detail))
+            elif obs != pred:
+                # the model IS the documented behaviour (storage context, truncation, failure results): same rule as raw_call above
+                reports.append(("failing-input", f"{cname}: result differs from the documented call-kind / create semantics (EvmFrag.v)", detail))
+    return n, reports
 
 
 def run(ctx):
@@ -342,6 +419,24 @@ def run(ctx):
                 found = True
                 reports.append(("failing-input", f"{c.name}: builtin does not follow its documented success/failure/truncation behaviour"
                                 + (": " + extra[0] if extra else ""), detail))
+    # ---- extension (session 3)
+    ext_pending = ext_build(ctx)
+    ctx.log(f'extension build done at {_t.time() - ctx.t0:.0f}s')
+    try:
+        xn, xreports = ext_corr(ctx, cfgs, rnd)
+    except Exception as e:   # the Coq model files did not build: no predictions
+        xn, xreports = 0, []
+        if ext_pending is None:
+            ext_pending = ("correspondence-broken", f"extension correspondence could not run: {type(e).__name__}: {e}", {"error": str(e)[:1500]})
+    n_eval += xn
+    n_nontriv += xn
+    dist["ext:contexts/raw_create/precompiles"] = xn
+    for kind, name, detail in xreports:
+        if kind == "failing-input":
+            n_fail += 1
+            found = True
+        reports.append((kind, name, detail))
+    ctx.log(f'extension correspondence done at {_t.time() - ctx.t0:.0f}s')
     shown = 0
     by_fn = {}
     for kind, name, detail in reports:
@@ -361,6 +456,8 @@ def run(ctx):
             ctx.violation(kind, name, detail)
         if pending is not None:
             ctx.violation(pending[0], pending[1], pending[2])
+        if ext_pending is not None:
+            ctx.violation(ext_pending[0], ext_pending[1], ext_pending[2])
     ctx.corr["evaluations"] = n_eval
     ctx.corr["distinct_nontrivial"] = n_nontriv
     ctx.corr["rule"] = ("one evaluation = one (caller function, callee behaviour) pair executed under one configuration; non-trivial = "
